@@ -17,11 +17,24 @@ type AbsEval struct {
 	Info *types.Info
 	Atom func(e ast.Expr) (any, bool)
 	vars map[*types.Var]any
+
+	preset map[*types.Var]any
+}
+
+// Set gives a variable an initial value (before Run).
+func (a *AbsEval) Set(v *types.Var, val any) {
+	if a.preset == nil {
+		a.preset = map[*types.Var]any{}
+	}
+	a.preset[v] = val
 }
 
 // Run executes the body and returns the values of the first return reached.
 func (a *AbsEval) Run(body *ast.BlockStmt) ([]any, bool) {
 	a.vars = map[*types.Var]any{}
+	for k, v := range a.preset {
+		a.vars[k] = v
+	}
 	ret, returned, ok := a.exec(body.List)
 	return ret, ok && returned
 }
